@@ -456,9 +456,12 @@ impl TreeNode {
     ) -> Result<Option<TreeNode>, AkdError> {
         if let Some(child_label) = self.get_child_label(direction) {
             let child_key = NodeKey(child_label);
-            let get_result = Self::get_from_storage(storage, &child_key, epoch).await;
+            let get_result = storage.get::<TreeNodeWithPreviousValue>(&child_key).await;
             match get_result {
-                Ok(node) => Ok(Some(node)),
+                // The child's record exists: it must hold a version as of `epoch`. If it only holds newer
+                // versions (a reader whose view is older than what storage still keeps) that is an error and
+                // not an absent child - treating it as absent yields proofs which do not verify.
+                Ok(DbRecord::TreeNode(record)) => Ok(Some(record.determine_node_to_get(epoch)?)),
                 Err(StorageError::NotFound(_)) => Ok(None),
                 _ => Err(AkdError::Storage(StorageError::NotFound(format!(
                     "TreeNode {child_key:?}"
